@@ -14,6 +14,11 @@ TRUSTED_BASE = [
 ]
 
 PLAN = {
+    "C15": {
+        "level": "proof",
+        "contracts": ["contracts.printer"],
+        "bounded": ["bounded.c15"],
+    },
     "C19": {
         "level": "exploration",
         "bounded": ["bounded.c19"],
